@@ -330,10 +330,11 @@ def BIter.seek (it : BIter) (k : Bytes) : BIter × Bool :=
       else if blt k it.start then it.clear.bSeek it.start else it.clear.bSeek k
     (it', it'.valid)
 
-/-- `goBadgerDBIt.Next`: the first call on a fresh iterator is `Rewind` (in either direction);
-false when done or exhausted. -/
+/-- `goBadgerDBIt.Next`: the first call on a fresh forward iterator is `Rewind`, on a fresh
+reverse iterator it finds nothing (`done`); false when done or exhausted. -/
 def BIter.next (it : BIter) : BIter × Bool :=
-  if it.fresh then it.rewind
+  if it.fresh then
+    if it.reverse then ({ it with fresh := false, done := true }, false) else it.rewind
   else if it.done then (it, false)
   else
     match it.pos with
